@@ -3,6 +3,7 @@ mod c04;
 mod c05;
 mod c06;
 mod c08;
+mod c09;
 mod c11;
 mod c12;
 mod c13;
@@ -47,6 +48,7 @@ fn main() {
         "C05" => c05::main(&args[1..]),
         "C06" => c06::main(&args[1..]),
         "C08" => c08::main(&args[1..]),
+        "C09" => c09::main(&args[1..]),
         "C11" => c11::main(&args[1..]),
         "C12" => c12::main(&args[1..]),
         "C13" => c13::main(&args[1..]),
